@@ -64,7 +64,8 @@ impl<M: MemBuilder> AnyVecRaw<M> {
         let mut cloned = self.clone_empty();
 
         // 2. allocate
-        cloned.mem.expand(self.len);
+        // (only if needed: fixed capacity Mem can't expand, but may already be big enough)
+        cloned.reserve(self.len);
 
         // 3. copy/clone
         {
